@@ -1,4 +1,4 @@
-/* VH_LINK: kv
+/* VH_LINK: kv layout ref_codecs rm_manifest
  * fault.c - E4: fault-site enumeration for C12.
  *
  * A history is first run fault-free to learn the sequence of intercepted system
@@ -18,18 +18,31 @@
  * write returned an error is present or absent atomically, nothing else appears.
  *
  *   --cfgs "cfg;cfg"   --len <n>   --scripted 0|1   --persistent 0|1   --depth2 0|1
+ *   --prop C12|C04|C13|C17   the same enumeration, judged with another property's statement only:
+ *      C04  batch atomicity: reads during the run and the contents after close/kill + reopen are the
+ *           fold of SOME set of whole batches (which ones is C12's and C02/C03's business)
+ *      C13  after every operation every table of the current version exists in the directory; at the end of
+ *           the run and after the clean close every table named by the durable MANIFEST exists
+ *      C17  after every operation the MANIFEST that CURRENT names, decoded independently, folds to
+ *           exactly the file set the database reports; judged for faults at write and rename calls only
+ *           (when fsync, close or the open of the directory for its fsync fails, the record is complete
+ *           on disk although lcdb rightly treats the step as failed, so the two may legitimately differ)
  */
 #define _GNU_SOURCE
 #include <errno.h>
 #include <stdlib.h>
 #include <string.h>
 #include "kv.h"
+#include "layout.h"
 
 #define MAXOPS 24
 static const char *DB = "/vfs/db";
 
 static kcfg_t cfg;
 static int do_persistent = 0, do_depth2 = 0;
+static int prop_mode = 12;   /* 12, 4, 13, 17 */
+static vcall_t *calllog;
+static long ncalllog;
 static uint64_t n_hist, n_sites, n_runs, n_reopens, n_fired, n_notfired, n_err_status_ops, n_open_failed_in_run;
 static uint64_t kind_sites[C_NKINDS];
 
@@ -67,6 +80,12 @@ typedef struct frun_s {
 static void
 fail(frun_t *r, const char *sig, const char *msg) {
   if (!r->ok)
+    return;
+  if (prop_mode == 4 && strcmp(sig, "batch-not-atomic-after-fault") && strcmp(sig, "batch-not-atomic-during-fault"))
+    return;
+  if (prop_mode == 13 && strcmp(sig, "reachable-file-removed"))
+    return;
+  if (prop_mode == 17 && strcmp(sig, "manifest-replay-differs"))
     return;
   r->ok = 0;
   snprintf(r->sig, sizeof(r->sig), "%s", sig);
@@ -109,14 +128,14 @@ check_reads(khist_t *h, frun_t *r, int opidx) {
     }
   }
   for (i = 0; i < h->nacks; i++)
-    if (h->acks[i].status != LDB_OK && nfailed < 10)
+    if ((h->acks[i].status != LDB_OK || prop_mode == 4) && nfailed < 10)
       failed[nfailed++] = i;
   for (s = 0; s < (1u << nfailed); s++) {
     kmodel_t want;
     int match = 1;
     memset(&want, 0, sizeof(want));
     for (i = 0; i < h->nacks; i++) {
-      int j, in = (h->acks[i].status == LDB_OK);
+      int j, in = (h->acks[i].status == LDB_OK && prop_mode != 4);
       for (j = 0; j < nfailed; j++)
         if (failed[j] == i && (s & (1u << j))) in = 1;
       if (in) kh_model_apply(&want, &h->acks[i].op, h->acks[i].opidx);
@@ -128,6 +147,10 @@ check_reads(khist_t *h, frun_t *r, int opidx) {
   snprintf(m, sizeof(m), "after op %d: reads return vids [%d,%d,%d] which is not the result of all acknowledged writes plus any atomic subset of the %d failed ones (acknowledged state [%d,%d,%d])",
            opidx, obs[0], obs[1], obs[2], nfailed, h->model.vid[0], h->model.vid[1], h->model.vid[2]);
   fail(r, "wrong-read-after-fault", m);
+  if (prop_mode == 4) {
+    snprintf(m, sizeof(m), "after op %d: reads return vids [%d,%d,%d] which is not the fold of any set of whole batches (a batch is visible in part)", opidx, obs[0], obs[1], obs[2]);
+    fail(r, "batch-not-atomic-during-fault", m);
+  }
 }
 
 static void
@@ -182,11 +205,35 @@ fault_body(void *arg) {
       n_err_status_ops++;
     if (h.db)
       check_reads(&h, r, i);
+    if (h.db && prop_mode == 13) {
+      char e[300];
+      if (!lay_reported_tables_exist(h.db, DB, e, sizeof(e))) {
+        char m[400];
+        snprintf(m, sizeof(m), "after op %d: %s", i, e);
+        fail(r, "reachable-file-removed", m);
+      }
+    }
+    if (h.db && prop_mode == 17 && rc == LDB_OK && !r->learn && r->plan.at >= 0 && r->plan.at < ncalllog &&
+        (calllog[r->plan.at].kind == C_WRITE || calllog[r->plan.at].kind == C_RENAME) && r->plan.at2 < 0) {
+      char e[300];
+      if (lay_reported_equals_manifest(h.db, DB, e, sizeof(e)) == 0) {
+        char m[400];
+        snprintf(m, sizeof(m), "after op %d (status OK): %s", i, e);
+        fail(r, "manifest-replay-differs", m);
+      }
+    }
   }
   r->fired = vfs_cur->fault.fired;
   r->ncalls_hist = vfs_cur->ncalls;
   memcpy(r->acks, h.acks, sizeof(r->acks));
   r->nacks = h.nacks;
+  if (prop_mode == 13) {
+    char e[300], m[400];
+    if (lay_manifest_tables_exist(DB, e, sizeof(e)) == 0) {
+      snprintf(m, sizeof(m), "at the end of the faulted run: %s", e);
+      fail(r, "reachable-file-removed", m);
+    }
+  }
   /* ending (b): kill now - everything written so far is what the OS keeps */
   {
     size_t *W = malloc(sizeof(size_t) * (size_t)(vfs_cur->ninodes + 1));
@@ -199,6 +246,13 @@ fault_body(void *arg) {
   /* ending (a): clean close (still under the fault if it is persistent), then the fault clears */
   kh_close(&h);
   vfs_fault_clear(vfs_cur);
+  if (prop_mode == 13) {
+    char e[300], m[400];
+    if (lay_manifest_tables_exist(DB, e, sizeof(e)) == 0) {
+      snprintf(m, sizeof(m), "after the clean close that ends the faulted run: %s", e);
+      fail(r, "reachable-file-removed", m);
+    }
+  }
   c.paranoid = r->paranoid;
   r->reopen_rc = kh_open(&h);
   if (r->reopen_rc == LDB_OK)
@@ -228,6 +282,8 @@ judge(frun_t *r, const kobs_t *o, int open_rc, const char *ending) {
   char m[500];
   int i;
   n_reopens++;
+  if (prop_mode == 4 && (open_rc != LDB_OK || o->bad))
+    return;   /* whether open succeeds and reads work is C12's statement, not C04's */
   if (open_rc != LDB_OK) {
     snprintf(m, sizeof(m), "%s: after the fault has cleared, ldb_open fails with status %d (%s)", ending, open_rc, ldb_strerror(open_rc));
     fail(r, "open-fails-after-fault-cleared", m);
@@ -244,7 +300,7 @@ judge(frun_t *r, const kobs_t *o, int open_rc, const char *ending) {
     fail(r, "inconsistent-after-fault", m);
     return;
   }
-  if (ok_mask & ~o->U) {
+  if (prop_mode != 4 && (ok_mask & ~o->U)) {
     snprintf(m, sizeof(m), "%s: batches %x returned OK but are missing after reopen (present %x, OK %x, all issued %x)", ending,
              ok_mask & ~o->U, o->U, ok_mask, all);
     fail(r, "acknowledged-write-lost", m);
@@ -306,8 +362,6 @@ run_fault(const hist_t *h, const fplan_t *p, int paranoid, frun_t *r) {
 }
 
 /* fault-free run with the call log on */
-static vcall_t *calllog;
-static long ncalllog;
 
 static void
 learn_body(void *arg) {
@@ -465,7 +519,7 @@ static kop_t alpha[16];
 static int nalpha;
 static void add_op(const char *s) { if (!kop_parse(&alpha[nalpha], s, NULL)) vh_die("bad op"); nalpha++; }
 
-static const char *scripted[] = {
+static const char *scripted_c12[] = {
   "P0.2 P1.2 P2.2 P0.2 P1.1",             /* log rotation + background flush */
   "P0.1 F P0.1 F P1.1 F P0.1 F C P2.1",   /* several levels, compaction with outputs */
   "P0.1! P1.1 O P2.1 P0.1",               /* recovery in the middle */
@@ -475,10 +529,20 @@ static const char *scripted[] = {
   NULL
 };
 
+/* C04 stage: batches whose log record spans three blocks, with small updates before and after the big one */
+static const char *scripted_c04[] = {
+  "B[P1.1,P2.3,P0.1]! P1.1",
+  "P0.1 B[P2.3,D0,P1.1] P0.1!",
+  "B[P0.1,D1,P2.2]! P1.2 P1.2 P1.2 P1.2! O P0.1!",
+  "B[P0.2,P1.2,P2.2] B[D0,P1.3,D2]! O B[P1.1,P0.3,D2]",
+  NULL
+};
+
 static void
 enumerate(int len, int with_scripted) {
   int idx[MAXOPS], depth, i;
   hist_t h;
+  const char **scripted = prop_mode == 4 ? scripted_c04 : scripted_c12;
   if (with_scripted)
     for (i = 0; scripted[i] && !stop_now; i++) {
       memset(&h, 0, sizeof(h));
@@ -543,6 +607,10 @@ main(int argc, char **argv) {
   do_persistent = (int)drv_opt_long("persistent", 0);
   do_depth2 = (int)drv_opt_long("depth2", 0);
   cfgs = drv_opt("cfgs", "B1");
+  {
+    const char *pm = drv_opt("prop", "C12");
+    prop_mode = !strcmp(pm, "C04") ? 4 : !strcmp(pm, "C13") ? 13 : !strcmp(pm, "C17") ? 17 : 12;
+  }
   add_op("P0.1");
   add_op("P1.1!");
   add_op("P0.2");
